@@ -21,7 +21,7 @@ import (
 
 type Iface struct {
 	Name  string   `json:"name"`
-	Kind  string   `json:"kind"` // veth | tun
+	Kind  string   `json:"kind"`  // veth | tun
 	Addrs []string `json:"addrs"` // CIDR, in the order they are added (IPv4 and/or IPv6)
 	NoV6  bool     `json:"disable_ipv6"`
 	MAC   string   `json:"mac,omitempty"` // veth only: fixed hardware address
@@ -42,18 +42,18 @@ type Route struct {
 }
 
 type Scenario struct {
-	Ifaces   []Iface  `json:"ifaces"`
-	Routes   []Route  `json:"routes"`
-	Inject   []Inject `json:"inject"`
-	SxBin    string   `json:"sx_bin"`
-	SxArgs   []string `json:"sx_args"`
-	SxStdin  string   `json:"sx_stdin"`
-	SigintMs int      `json:"sigint_after_ms"`     // live scans: interrupt sx after this long at the latest
-	SigintN  int      `json:"sigint_after_frames"` // ... or as soon as this many non-IPv6 frames were captured
-	FloodHex   string `json:"flood_hex"`        // a frame sent to sx's side of FloodIface again and again from the first probe until sx has exited
-	FloodIface string `json:"flood_iface"`
-	FloodUs    int    `json:"flood_every_us"`
-	TimeoutS int      `json:"timeout_s"`
+	Ifaces     []Iface  `json:"ifaces"`
+	Routes     []Route  `json:"routes"`
+	Inject     []Inject `json:"inject"`
+	SxBin      string   `json:"sx_bin"`
+	SxArgs     []string `json:"sx_args"`
+	SxStdin    string   `json:"sx_stdin"`
+	SigintMs   int      `json:"sigint_after_ms"`     // live scans: interrupt sx after this long at the latest
+	SigintN    int      `json:"sigint_after_frames"` // ... or as soon as this many non-IPv6 frames were captured
+	FloodHex   string   `json:"flood_hex"`           // a frame sent to sx's side of FloodIface again and again from the first probe until sx has exited
+	FloodIface string   `json:"flood_iface"`
+	FloodUs    int      `json:"flood_every_us"`
+	TimeoutS   int      `json:"timeout_s"`
 }
 
 type IfaceInfo struct {
